@@ -239,8 +239,22 @@ SUB_SHAPES = ["none", "sub_plain", "sub_init_args", "sub_new_args", "sub_init_su
 def _make_class(shape: str, sub: str, decorate: bool, log: List[Any]) -> Tuple[Any, Any, Tuple[Any, ...]]:
     """Returns (base class, class to instantiate, constructor args)."""
     dbc = shape.startswith("dbc")
-    bases = (icontract.DBC,) if dbc else ()
     meta = icontract.DBCMeta if dbc else type
+
+    # an undecorated parent providing helpers which the class merely inherits
+    class Helpers:
+        @staticmethod
+        def static_helper(v: Any) -> Any:
+            return ("static", v)
+
+        @classmethod
+        def class_helper(cls: Any) -> Any:
+            return ("class", cls.__name__)
+
+        def _protected_helper(self: Any) -> Any:
+            return "protected"
+
+    bases = (Helpers, icontract.DBC) if dbc else (Helpers,)
     args = ()  # type: Tuple[Any, ...]
 
     def pub(self: Any) -> Any:
@@ -264,10 +278,10 @@ def _make_class(shape: str, sub: str, decorate: bool, log: List[Any]) -> Tuple[A
     if shape == "dataclass":
         ns["__annotations__"] = {"a": int}
         ns["a"] = 1
-        base = dataclasses.dataclass(type("K", (), ns))
+        base = dataclasses.dataclass(type("K", (Helpers,), ns))
     elif shape == "namedtuple":
         NT = NamedTuple("NT", [("a", int)])
-        base = type("K", (NT,), ns)
+        base = type("K", (NT, Helpers), ns)
         args = (1,)
     else:
         base = meta("K", bases, ns)
@@ -317,7 +331,8 @@ def _use(cls: Any, args: Tuple[Any, ...]) -> Tuple[Any, ...]:
     state = []
     for name in ("a", "b"):
         state.append(getattr(inst, name, "<unset>"))
-    return ("ok", tuple(state), inst.pub(), isinstance(inst, cls))
+    helpers = (cls.static_helper(3), inst.static_helper(4), cls.class_helper(), inst.class_helper(), inst._protected_helper())
+    return ("ok", tuple(state), inst.pub(), isinstance(inst, cls), helpers)
 
 
 def run_class(shape_i: int, sub_i: int) -> Tuple[bool, bool]:
